@@ -228,6 +228,25 @@ pub fn counter_reachability(k: usize) -> Ast {
     Ast::fp("Z", false, Ast::bin(Bin::Or, init, step))
 }
 
+/// k-bit counter over k names only: a value is in Z iff it is 0 or its predecessor is in Z.
+/// The least fixed point is `true` and needs 2^k rounds; the body is monotone.
+pub fn counter_predecessor(k: usize) -> Ast {
+    use crate::refl::Bin;
+    let b: Vec<String> = (0..k).map(|i| format!("b{i}")).collect();
+    let conj = |v: Vec<Ast>| v.into_iter().reduce(|a, c| Ast::bin(Bin::And, a, c)).unwrap_or(Ast::True);
+    let mut body = conj(b.iter().map(|v| Ast::not(Ast::var(v))).collect());
+    for i in 0..k {
+        // lowest set bit is i: b_i & -b_0 .. -b_(i-1); predecessor has b_i = 0 and the bits below = 1
+        let mut guard = vec![Ast::var(&b[i])];
+        guard.extend((0..i).map(|j| Ast::not(Ast::var(&b[j]))));
+        let mut pred = vec![Ast::var("Z"), Ast::not(Ast::var(&b[i]))];
+        pred.extend((0..i).map(|j| Ast::var(&b[j])));
+        let q = Ast::Q(true, b[..=i].to_vec(), Box::new(conj(pred)));
+        body = Ast::bin(Bin::Or, body, Ast::bin(Bin::And, conj(guard), q));
+    }
+    Ast::fp("Z", false, body)
+}
+
 // ---------------------------------------------------------------------------------------
 // wide family: formulas over 33..70 variables whose canonical diagram is known in closed form
 
